@@ -5,30 +5,353 @@
 
 package token
 
-//@ -- Assumed contracts of the stateful-token store as seen by its callers (bodies verified under C16 when claimed).
+//@ -- The stateful-token store as seen by its callers: thin wrappers around the package-level state (verified below).
 //@ func Get
-//@   trusted
-//@   why stateful.go: the token with that name and its version tag, or an error (then no token); reads the token file under tokens.mu
-//@   modifies nothing
+//@   props C16 C13 C12
+//@   requires unlocked: !held(tokens.mu)
+//@   modifies held(tokens.mu), tokens.modTime, tokens.fileSize, tokens.tokens
+//@   ensures unlocked: !held(tokens.mu)
 //@   ensures found: isnil(result2) ==> result0 != nil
 //@   ensures missing: !isnil(result2) ==> result0 == nil
 //@ func List
-//@   trusted
-//@   why stateful.go: the tokens of a group (no nil entries: they are the values of the tokens map) and the version tag; reads the token file under tokens.mu
-//@   modifies nothing
-//@   ensures entries: forall k int :: 0 <= k && k < len(result0) ==> result0[k] != nil
+//@   props C16 C13 C12
+//@   requires unlocked: !held(tokens.mu)
+//@   modifies held(tokens.mu), tokens.modTime, tokens.fileSize, tokens.tokens
+//@   ensures unlocked: !held(tokens.mu)
+//@   ensures entries: result2 == nil ==> (forall k int :: 0 <= k && k < len(result0) ==> result0[k] != nil)
 //@ func Update
-//@   trusted
-//@   why stateful.go: conditional update of the token file under tokens.mu; returns the stored token
-//@   modifies nothing
+//@   props C16 C13 C12
+//@   requires nonnil: token != nil
+//@   requires unlocked: !held(tokens.mu)
+//@   modifies held(tokens.mu), tokens.modTime, tokens.fileSize, tokens.tokens, tokens.tokens[*]
+//@   ensures unlocked: !held(tokens.mu)
 //@   ensures stored: isnil(result1) ==> result0 != nil
 //@ func Delete
-//@   trusted
-//@   why stateful.go: conditional deletion under tokens.mu
-//@   modifies nothing
+//@   props C16 C13 C12
+//@   requires unlocked: !held(tokens.mu)
+//@   modifies held(tokens.mu), tokens.modTime, tokens.fileSize, tokens.tokens, tokens.tokens[*]
+//@   ensures unlocked: !held(tokens.mu)
+//@ func Expire
+//@   props C16 C13 C12
+//@   requires unlocked: !held(tokens.mu)
+//@   modifies held(tokens.mu), tokens.modTime, tokens.fileSize, tokens.tokens, tokens.tokens[*]
+//@   ensures unlocked: !held(tokens.mu)
 //@ func (*Stateful).Clone
 //@   trusted
 //@   why stateful.go: returns a copy
 //@   requires nonnil: token != nil
 //@   modifies nothing
 //@   ensures copy: result != nil && fresh(result)
+//@
+//@ -- ------------------------------------------------------------------ token scope and validity (C09)
+//@ spec hasprefix(s string, p string) bool = len(s) >= len(p) && (forall i int :: 0 <= i && i < len(p) ==> s[i] == p[i])
+//@ -- group g lies strictly below group t in the hierarchy: g = t + "/" + rest (whole path components: "a" is not above "ab")
+//@ spec below(g string, t string) bool = len(g) > len(t) && g[len(t)] == '/' && hasprefix(g, t)
+//@
+//@ func (*Stateful).match
+//@   safe
+//@   pure
+//@   props C09 C12
+//@   requires nonnil: token != nil
+//@   modifies nothing
+//@   -- C09: the root scope (administration) is covered only by a root token that includes subgroups
+//@   ensures root: group == "" ==> result == (token.IncludeSubgroups && token.Group == "")
+//@   -- C09: a token covers its own group, and - only if it includes subgroups - the groups strictly below it
+//@   ensures own: group != "" && group == token.Group ==> result
+//@   ensures scope: group != "" && group != token.Group ==> result == (token.IncludeSubgroups && (token.Group == "" || below(group, token.Group)))
+//@
+//@ func (*Stateful).Check
+//@   safe
+//@   props C09 C12
+//@   requires nonnil: token != nil
+//@   modifies nothing
+//@   -- C09: accepted only inside the token's scope,
+//@   ensures scope: result2 == nil ==> call("(*token.Stateful).match", token, group)
+//@   -- only with an expiry, not after it, and not before the not-before time (both compared with the current time)
+//@   ensures has-expiry: result2 == nil ==> token.Expires != nil
+//@   assert at call After window: arg_t == callresult("Now", 1) && arg_u == *token.Expires
+//@   assert at call Before window: arg_t == callresult("Now", 1) && arg_u == *token.NotBefore
+//@   proves window: result2 == nil ==> !callresult("After", 1) && (token.NotBefore == nil || !callresult("Before", 1))
+//@   -- and it grants exactly the username (if any) and the permissions written in the token
+//@   ensures grants: result2 == nil ==> same(result1, token.Permissions) && (token.Username != nil ? result0 == *token.Username : result0 == "")
+//@   ensures refused: result2 != nil ==> result0 == "" && isnil(result1)
+//@
+//@ func (*Stateful).NeedsUsername
+//@   safe
+//@   props C09 C12
+//@   requires nonnil: token != nil
+//@   modifies nothing
+//@   ensures def: result == (token.Username == nil)
+//@
+//@ -- the audience path "/group/<g>/" of group g: s has exactly that shape
+//@ spec isgrouppath(s string, g string) bool = len(s) == len(g) + 8 && hasprefix(s, "/group/") && s[len(s) - 1] == '/' && (forall i int :: 0 <= i && i < len(g) ==> s[7 + i] == g[i])
+//@
+//@ func matchGroup
+//@   safe
+//@   pure
+//@   props C09 C12
+//@   modifies nothing
+//@   -- C09: without subgroups the audience path must be exactly /group/<group>/
+//@   ensures exact: !includeSubgroups ==> (result ==> isgrouppath(pth, group))
+//@   -- C09: with subgroups it must be /group/<ancestor>/ for the group itself or an ancestor, whole components only:
+//@   -- it begins with /group/, ends with a slash, and is a prefix of /group/<group>/
+//@   ensures ancestor: includeSubgroups && result ==> hasprefix(pth, "/group/") && pth[len(pth) - 1] == '/' && len(pth) <= len(group) + 8
+//@        && (forall i int :: 7 <= i && i < len(pth) - 1 ==> pth[i] == group[i - 7])
+//@        && (len(pth) < len(group) + 8 ==> len(pth) == 7 || group[len(pth) - 8] == '/')
+//@
+//@ iface jwt.Claims.GetSubject
+//@   why golang-jwt: reads the "sub" claim; no side effects
+//@   modifies nothing
+//@ iface jwt.Claims.GetAudience
+//@   why golang-jwt: reads the "aud" claim; no side effects
+//@   modifies nothing
+//@ extern net/url.Parse
+//@   why documented: parses a URL into a new structure; no side effects
+//@   modifies nothing
+//@   fresh
+//@   ensures one: (result0 != nil) == (result1 == nil)
+//@
+//@ func toStringArray
+//@   safe
+//@   props C09 C12
+//@   modifies nothing
+//@   invariant loop 1 range: -1 <= rangeindex && rangeindex < len(aa) && len(b) == len(aa) && fresh(b)
+//@
+//@ func (*JWT).Check
+//@   safe
+//@   props C09 C12
+//@   requires nonnil: token != nil
+//@   -- type invariant of JWT: values are only made by parseJWT from the result of jwt.Parse, which always sets Claims (MapClaims by default)
+//@   assume claims-set: token.Claims != nil
+//@   modifies nothing
+//@   invariant loop 1 range: -1 <= rangeindex && rangeindex < len(aud)
+//@   -- (no audience has been accepted while the loop is still running)
+//@   invariant loop 1 not-yet: !ok$1
+//@   -- C09: the group test is made against the group being joined, with the token's own include-subgroups claim,
+//@   -- on the path of an audience URL whose host is this server (when a canonical host is configured)
+//@   assert at call matchGroup this-group: arg_group == group && arg_includeSubgroups == includeSubgroups && arg_pth == url$1.Path
+//@   assert at call EqualFold this-host: arg_t == host && arg_s == url$1.Host
+//@   -- C09: the token is accepted only if that test succeeded for some audience
+//@   proves audience-matched: result2 == nil ==> callresult("matchGroup", 1) && (host == "" || callresult("EqualFold", 1))
+//@   -- C09: the username is the token's subject
+//@   proves subject: result2 == nil ==> result0 == first(callresult("GetSubject", 1))
+//@   ensures refused: result2 != nil ==> result0 == "" && isnil(result1)
+//@
+//@ func (*JWT).NeedsUsername
+//@   safe
+//@   props C09 C12
+//@   modifies nothing
+//@   ensures never: !result
+//@
+//@ func ParseKey
+//@   trusted
+//@   why jwt.go: builds a verification key (HMAC secret, ECDSA or RSA public key) from one JWK after checking that its "alg" suits its "kty"; new objects only, no effect on program state (not verified here)
+//@   modifies nothing
+//@
+//@ func ParseKeys
+//@   safe
+//@   props C09 C12
+//@   modifies nothing
+//@   invariant loop 1 range: -1 <= rangeindex && rangeindex < len(keys) && fresh(ks)
+//@   -- C09: a key takes part in verifying a token only if the algorithm declared for that key is the one the token's header
+//@   -- declares, and - when the header names a key id - only the key with that id (alg == "" / kid == "": listing, not verification)
+//@   assert at call ParseKey selected: (alg == "" || holds(arg_key["alg"], alg)) && (kid == "" || holds(arg_key["kid"], kid))
+//@
+//@ func parseJWT$1
+//@   props C09 C12
+//@   -- C09: a token whose header declares no algorithm is rejected before any key is looked at; keys are selected for the declared algorithm
+//@   assert at call ParseKeys declared-alg: arg_alg != "" && holds(t.Header["alg"], arg_alg)
+//@
+//@ extern github.com/golang-jwt/jwt/v5.Parse
+//@   why golang-jwt: parses and validates a signed token with the key function given (which it calls); no effect on program state
+//@   modifies nothing
+//@ extern github.com/golang-jwt/jwt/v5.WithExpirationRequired
+//@   why golang-jwt: parser option
+//@   modifies nothing
+//@ extern github.com/golang-jwt/jwt/v5.WithIssuedAt
+//@   why golang-jwt: parser option
+//@   modifies nothing
+//@ extern github.com/golang-jwt/jwt/v5.WithLeeway
+//@   why golang-jwt: parser option
+//@   modifies nothing
+//@
+//@ func parseJWT
+//@   safe
+//@   props C09 C12
+//@   modifies nothing
+//@   -- C09: signed tokens are parsed with "expiry required" switched on
+//@   assert at call Parse options: len(arg_options) == 3
+//@   ensures one: result1 != nil ==> result0 == nil
+//@
+//@ func Parse
+//@   safe
+//@   props C09 C12
+//@   modifies nothing
+//@   -- (on failure the result may be a non-nil interface holding a nil *Stateful: callers test the error first)
+//@   ensures found: result1 == nil ==> result0 != nil && ref(result0) != 0
+//@
+//@ -- ------------------------------------------------------------------ the stateful-token store (C16, C13)
+//@ -- the token table, its file name and the version of the file it mirrors are only touched with the state's mutex held
+//@ guarded state.mu: filename fileSize modTime tokens
+//@ global token-errors-set: ErrTagMismatch != nil && os.ErrNotExist != nil && io.EOF != nil
+//@
+//@ -- invariant of the table (what the mutex protects): no nil entries.  Assumed when a public method takes the lock,
+//@ -- proved again before it releases it; required and ensured by the helpers that are "called locked".
+//@ spec tablewf(s *state) bool = forall k string :: has(s.tokens, k) ==> s.tokens[k] != nil
+//@ -- a helper may replace the table by a newly read one, or forget it
+//@ spec tablestep(s *state) bool = same(s.tokens, old(s.tokens)) || fresh(s.tokens) || isnil(s.tokens)
+//@
+//@ func SetStatefulFilename
+//@   safe
+//@   props C16 C13 C12
+//@   requires unlocked: !held(tokens.mu)
+//@   modifies held(tokens.mu), tokens.filename, tokens.fileSize, tokens.modTime
+//@   ensures unlocked: !held(tokens.mu)
+//@
+//@ func (*state).reset
+//@   safe
+//@   props C16 C13 C12
+//@   requires nonnil: state != nil
+//@   requires locked: held(state.mu)
+//@   modifies state.modTime, state.fileSize, state.tokens
+//@   ensures forgotten: isnil(state.tokens) && state.fileSize == 0
+//@
+//@ func (*state).etag
+//@   safe
+//@   pure
+//@   props C16 C13 C12
+//@   requires nonnil: state != nil
+//@   requires locked: held(state.mu)
+//@   modifies nothing
+//@
+//@ func (*state).load
+//@   safe
+//@   props C16 C13 C12
+//@   requires nonnil: state != nil
+//@   requires locked: held(state.mu)
+//@   requires table: tablewf(state)
+//@   modifies state.modTime, state.fileSize, state.tokens
+//@   invariant loop 1 building: fresh(ts) && !isnil(ts) && held(state.mu) && (forall k string :: has(ts, k) ==> ts[k] != nil)
+//@   -- C16: a failed load forgets the table (so that nothing stale is honoured)
+//@   ensures failed-forgets: result1 != nil ==> isnil(state.tokens)
+//@   ensures step: tablestep(state)
+//@   ensures table: tablewf(state)
+//@
+//@ func (*state).Get
+//@   safe
+//@   props C16 C13 C12
+//@   requires nonnil: state != nil
+//@   requires unlocked: !held(state.mu)
+//@   assume table: tablewf(state)
+//@   modifies held(state.mu), state.modTime, state.fileSize, state.tokens
+//@   ensures unlocked: !held(state.mu)
+//@   ensures table: tablewf(state)
+//@   ensures found: result2 == nil ==> result0 != nil
+//@   ensures missing: result2 != nil ==> result0 == nil && result1 == ""
+//@
+//@ func (*state).list
+//@   safe
+//@   ematch
+//@   props C16 C13 C12
+//@   requires nonnil: state != nil
+//@   requires locked: held(state.mu)
+//@   requires table: tablewf(state)
+//@   modifies state.modTime, state.fileSize, state.tokens
+//@   invariant loop 1 own: fresh(a) && held(state.mu)
+//@   invariant loop 1 collected: forall k int :: 0 <= k && k < len(a) ==> a[k] != nil
+//@   invariant loop 1 table: tablewf(state) && same(state.tokens, atcall("load", 1, state.tokens)) && !isnil(state.tokens)
+//@   ensures entries: result2 == nil ==> (forall k int :: 0 <= k && k < len(result0) ==> result0[k] != nil)
+//@   ensures fresh: result2 == nil ==> fresh(result0)
+//@   ensures step: tablestep(state)
+//@   ensures table: tablewf(state)
+//@   ensures failed-forgets: result2 != nil && !(group != "" && all) ==> isnil(state.tokens)
+//@
+//@ func (*state).list$1
+//@   inline
+//@
+//@ func (*state).List
+//@   safe
+//@   props C16 C13 C12
+//@   requires nonnil: state != nil
+//@   requires unlocked: !held(state.mu)
+//@   assume table: tablewf(state)
+//@   modifies held(state.mu), state.modTime, state.fileSize, state.tokens
+//@   ensures unlocked: !held(state.mu)
+//@   ensures table: tablewf(state)
+//@   ensures entries: result2 == nil ==> (forall k int :: 0 <= k && k < len(result0) ==> result0[k] != nil)
+//@
+//@ func (*state).rewrite
+//@   safe
+//@   props C16 C13 C12
+//@   requires nonnil: state != nil
+//@   requires locked: held(state.mu)
+//@   requires table: tablewf(state)
+//@   modifies state.modTime, state.fileSize, state.tokens
+//@   invariant loop 1 range: -1 <= rangeindex && rangeindex < len(a) && held(state.mu) && tablewf(state) && tablestep(state)
+//@   -- C16 (atomic replacement): the token file is touched only by removing it when the table is empty, or by renaming over it
+//@   -- a temporary file of the same directory after EVERY token has been encoded into it and it has been closed without error
+//@   assert at call CreateTemp same-dir: arg_dir == dir
+//@   assert at call Rename complete: callresult("Close", 2) == nil && third(callresult("list", 1)) == nil
+//@   assert at call Rename target: arg_oldpath == callresult("Name", 4) && arg_newpath == state.filename
+//@   assert at call Remove#1 only-when-empty: arg_name == state.filename && (isnil(state.tokens) || len(state.tokens) == 0)
+//@   assert at call Remove#2 temp-only: arg_name == callresult("Name", 1)
+//@   assert at call Remove#3 temp-only: arg_name == callresult("Name", 2)
+//@   assert at call Remove#4 temp-only: arg_name == callresult("Name", 3)
+//@   assert at call Remove#5 temp-only: arg_name == callresult("Name", 5)
+//@   ensures step: tablestep(state)
+//@   ensures table: tablewf(state)
+//@   proves renamed: result == nil && !(old(isnil(state.tokens)) || old(len(state.tokens)) == 0) ==> callresult("Rename", 1) == nil
+//@
+//@ func (*state).add
+//@   safe
+//@   props C16 C13 C12
+//@   requires nonnil: state != nil && token != nil
+//@   requires locked: held(state.mu)
+//@   requires table: tablewf(state)
+//@   modifies state.modTime, state.fileSize, state.tokens, state.tokens[*]
+//@   -- C16: the table changes only after the line has been appended to the file
+//@   ensures failed-unchanged: result1 != nil ==> same(state.tokens, old(state.tokens))
+//@   ensures added: result1 == nil ==> result0 == token
+//@   ensures table: tablewf(state)
+//@
+//@ func (*state).Update
+//@   safe
+//@   props C16 C13 C12
+//@   requires nonnil: state != nil && token != nil
+//@   requires unlocked: !held(state.mu)
+//@   assume table: tablewf(state)
+//@   modifies held(state.mu), state.modTime, state.fileSize, state.tokens, state.tokens[*]
+//@   ensures unlocked: !held(state.mu)
+//@   ensures table: tablewf(state)
+//@   -- C16: an existing token is replaced only under the current version tag, a new one is added only under the empty tag,
+//@   -- both inside the critical section in which the file was (re)read
+//@   assert at call rewrite tag-current: etag == atcall("load", 1, call("(*token.state).etag", state))
+//@   assert at call add absent: etag == ""
+//@   assert at call load locked: held(state.mu)
+//@   assert at call rewrite locked: held(state.mu)
+//@   assert at call add locked: held(state.mu)
+//@   ensures stored: isnil(result1) ==> result0 != nil
+//@
+//@ func (*state).Delete
+//@   safe
+//@   props C16 C13 C12
+//@   requires nonnil: state != nil
+//@   requires unlocked: !held(state.mu)
+//@   assume table: tablewf(state)
+//@   modifies held(state.mu), state.modTime, state.fileSize, state.tokens, state.tokens[*]
+//@   ensures unlocked: !held(state.mu)
+//@   ensures table: tablewf(state)
+//@   assert at call rewrite tag-current: etag == atcall("load", 1, call("(*token.state).etag", state))
+//@   assert at call load locked: held(state.mu)
+//@   assert at call rewrite locked: held(state.mu)
+//@
+//@ func (*state).Expire
+//@   safe
+//@   props C16 C13 C12
+//@   requires nonnil: state != nil
+//@   requires unlocked: !held(state.mu)
+//@   assume table: tablewf(state)
+//@   modifies held(state.mu), state.modTime, state.fileSize, state.tokens, state.tokens[*]
+//@   ensures unlocked: !held(state.mu)
+//@   ensures table: tablewf(state)
+//@   invariant loop 1 locked: held(state.mu) && tablewf(state) && same(state.tokens, atcall("load", 1, state.tokens))
